@@ -18,6 +18,7 @@ fn main() {
         "c27seq" => c27::run_seq(&args),
         "c27merge" => c27::run_merge(&args),
         "c28" => c28::run(&args),
+        "c27rounds" => rounds::run(&args),
         "c26" => c26::run(&args),
         "c25" => c25::run(&args),
         other => {
@@ -108,7 +109,7 @@ mod c27 {
     use super::*;
 
     #[derive(Deserialize)]
-    struct P {
+    pub(super) struct P {
         kind: String,
         relay: String,
         lat: u64,
@@ -116,7 +117,7 @@ mod c27 {
         addr: String,
     }
     #[derive(Deserialize)]
-    struct Exp {
+    pub(super) struct Exp {
         udp4: bool,
         udp6: bool,
         var4: String,
@@ -126,9 +127,9 @@ mod c27 {
         lat: Vec<u64>,
     }
     #[derive(Deserialize)]
-    struct Step {
+    pub(super) struct Step {
         p: P,
-        exp: Exp,
+        pub(super) exp: Exp,
     }
     #[derive(Deserialize)]
     struct Case {
@@ -150,7 +151,7 @@ mod c27 {
             _ => SocketAddr::new(Ipv4Addr::new(203, 0, 113, h).into(), p),
         }
     }
-    fn tri(v: Option<bool>) -> &'static str {
+    pub(super) fn tri(v: Option<bool>) -> &'static str {
         match v {
             None => "none",
             Some(true) => "true",
@@ -168,41 +169,54 @@ mod c27 {
         }
     }
 
+    /// `Report::update` with the probe report of a model step.
+    pub(super) fn apply(r: &mut Report, s: &Step) {
+        hooks::report_update(
+            r,
+            probe(&s.p.kind),
+            relay_url(&s.p.relay),
+            Duration::from_secs(s.p.lat),
+            sock_addr(&s.p.fam, &s.p.addr),
+        );
+    }
+
+    /// Compares the public fields of a report with the model's (what, expected, got).
+    pub(super) fn compare(r: &Report, e: &Exp, with_varies: bool) -> Result<(), (String, String, String)> {
+        let nrel = e.lat.len() / 3;
+        let bad = |what: &str, exp: String, got: String| Err((what.to_string(), exp, got));
+        if r.udp_v4 != e.udp4 {
+            return bad("udp_v4", e.udp4.to_string(), r.udp_v4.to_string());
+        }
+        if r.udp_v6 != e.udp6 {
+            return bad("udp_v6", e.udp6.to_string(), r.udp_v6.to_string());
+        }
+        let g4 = addr_name(r.global_v4.map(SocketAddr::V4), "v4");
+        if g4 != e.glob4 {
+            return bad("global_v4", e.glob4.clone(), g4);
+        }
+        let g6 = addr_name(r.global_v6.map(SocketAddr::V6), "v6");
+        if g6 != e.glob6 {
+            return bad("global_v6", e.glob6.clone(), g6);
+        }
+        if with_varies && tri(r.mapping_varies_by_dest_ipv4) != e.var4 {
+            return bad("mapping_varies_ipv4", e.var4.clone(), tri(r.mapping_varies_by_dest_ipv4).to_string());
+        }
+        if with_varies && tri(r.mapping_varies_by_dest_ipv6) != e.var6 {
+            return bad("mapping_varies_ipv6", e.var6.clone(), tri(r.mapping_varies_by_dest_ipv6).to_string());
+        }
+        let f = flat(&r.relay_latency, nrel);
+        if f != e.lat {
+            return bad("relay_latency", format!("{:?}", e.lat), format!("{f:?}"));
+        }
+        Ok(())
+    }
+
     fn replay(case: usize, c: &Case) -> Obs {
         let mut r = Report::default();
         for (i, s) in c.steps.iter().enumerate() {
-            hooks::report_update(
-                &mut r,
-                probe(&s.p.kind),
-                relay_url(&s.p.relay),
-                Duration::from_secs(s.p.lat),
-                sock_addr(&s.p.fam, &s.p.addr),
-            );
-            let e = &s.exp;
-            let nrel = e.lat.len() / 3;
-            if r.udp_v4 != e.udp4 {
-                return Obs::bad(case, i, "udp_v4", e.udp4, r.udp_v4);
-            }
-            if r.udp_v6 != e.udp6 {
-                return Obs::bad(case, i, "udp_v6", e.udp6, r.udp_v6);
-            }
-            let g4 = addr_name(r.global_v4.map(SocketAddr::V4), "v4");
-            if g4 != e.glob4 {
-                return Obs::bad(case, i, "global_v4", &e.glob4, g4);
-            }
-            let g6 = addr_name(r.global_v6.map(SocketAddr::V6), "v6");
-            if g6 != e.glob6 {
-                return Obs::bad(case, i, "global_v6", &e.glob6, g6);
-            }
-            if tri(r.mapping_varies_by_dest_ipv4) != e.var4 {
-                return Obs::bad(case, i, "mapping_varies_ipv4", &e.var4, tri(r.mapping_varies_by_dest_ipv4));
-            }
-            if tri(r.mapping_varies_by_dest_ipv6) != e.var6 {
-                return Obs::bad(case, i, "mapping_varies_ipv6", &e.var6, tri(r.mapping_varies_by_dest_ipv6));
-            }
-            let f = flat(&r.relay_latency, nrel);
-            if f != e.lat {
-                return Obs::bad(case, i, "relay_latency", format!("{:?}", e.lat), format!("{f:?}"));
+            apply(&mut r, s);
+            if let Err((what, exp, got)) = compare(&r, &s.exp, true) {
+                return Obs::bad(case, i, &what, exp, got);
             }
             if r.preferred_relay.is_some() || r.captive_portal.is_some() {
                 return Obs::bad(case, i, "untouched_fields", "none", "set");
@@ -342,6 +356,83 @@ mod c28 {
     }
 }
 
+/// C27 + C28 pipeline: rounds of probe reports folded with `Report::update`, each finished with
+/// `add_report_history_and_set_preferred_relay` under the paused clock
+/// (specs/netreport/NetReport.tla, NetReport_Rounds.cfg).
+mod rounds {
+    use super::*;
+
+    #[derive(Deserialize)]
+    struct Round {
+        dt: u64,
+        probes: Vec<c27::Step>,
+        agg: c27::Exp,
+        var4: String,
+        var6: String,
+    }
+    #[derive(Deserialize)]
+    struct Case {
+        rounds: Vec<Round>,
+    }
+    #[derive(Serialize, Default)]
+    struct Out {
+        case: usize,
+        ok: bool,
+        round: usize,
+        step: usize,
+        what: String,
+        exp: String,
+        got: String,
+        /// preferred relay after each finished round
+        prefs: Vec<String>,
+        /// mapping_varies (v4, v6) after each finished round, and what the model inherits
+        varies: Vec<(String, String)>,
+        nprev: Vec<usize>,
+    }
+
+    async fn replay(case: usize, c: &Case, tls: rustls::ClientConfig) -> Out {
+        let mut h = hooks::ReportHistory::new(tls);
+        let mut o = Out { case, ok: true, ..Default::default() };
+        for (ri, round) in c.rounds.iter().enumerate() {
+            let mut r = Report::default();
+            for (i, s) in round.probes.iter().enumerate() {
+                c27::apply(&mut r, s);
+                if let Err((what, exp, got)) = c27::compare(&r, &s.exp, true) {
+                    return Out { ok: false, round: ri, step: i, what, exp, got, ..o };
+                }
+            }
+            tokio::time::advance(Duration::from_secs(round.dt)).await;
+            h.add_report_and_set_preferred_relay(&mut r);
+            // finishing the report must leave what was aggregated alone (mapping_varies may be inherited)
+            if let Err((what, exp, got)) = c27::compare(&r, &round.agg, false) {
+                return Out { ok: false, round: ri, step: round.probes.len(), what: format!("after finish: {what}"), exp, got, ..o };
+            }
+            o.prefs.push(r.preferred_relay.as_ref().map(relay_name).unwrap_or_else(|| "none".into()));
+            o.varies.push((c27::tri(r.mapping_varies_by_dest_ipv4).to_string(), c27::tri(r.mapping_varies_by_dest_ipv6).to_string()));
+            o.nprev.push(h.len());
+            let _ = (&round.var4, &round.var6);
+        }
+        o
+    }
+
+    pub fn run(args: &Args) {
+        let cases: Vec<Case> = read_ndjson(&args.path("in"));
+        let mut out = NdjsonOut::create(&args.path("out"));
+        let tls = iroh_relay::tls::CaTlsConfig::insecure_skip_verify()
+            .client_config(iroh_relay::tls::default_provider())
+            .expect("tls config");
+        let rt = tokio::runtime::Builder::new_current_thread().enable_all().start_paused(true).build().unwrap();
+        for (case, c) in cases.iter().enumerate() {
+            let o = match vh::io::catch(|| rt.block_on(replay(case, c, tls.clone()))) {
+                Ok(o) => o,
+                Err(p) => Out { case, ok: false, what: "panic".into(), exp: "no panic".into(), got: p, ..Default::default() },
+            };
+            out.emit(&o);
+        }
+        out.finish();
+    }
+}
+
 /// C26: force words of specs/socket/HomeRelay.tla (get-then-set structure) on a real
 /// `HomeRelayWatch` with one real thread per actor; the pause point between the read and the
 /// write of `set_status` is used to hold an actor in between.  Output: per word the events
@@ -390,7 +481,7 @@ mod c26 {
         panic: Option<String>,
     }
 
-    const BLOCK: Duration = Duration::from_millis(250);
+    const BLOCK: Duration = Duration::from_millis(400);
     const HANG: Duration = Duration::from_secs(10);
 
     fn model_url(name: &str) -> RelayUrl {
@@ -649,10 +740,20 @@ mod c25 {
         n: u64,
         runs: u64,
     }
+    /// A c26.* event of the live endpoint's HomeRelayWatch (URLs named a, b, .. in order of appearance).
+    #[derive(Serialize, Clone, Default)]
+    struct HomeEv {
+        ev: String,
+        url: String,
+        home: String,
+        state: String,
+    }
     #[derive(Serialize, Default)]
     struct Out {
         case: usize,
         events: Vec<Ev>,
+        /// HomeRelayWatch events since the previous output line (for the end-to-end C26 trace)
+        home_events: Vec<HomeEv>,
         /// steps of the word that could not be forced on this implementation (index, reason)
         skipped: Vec<(usize, String)>,
         /// environment / harness problem (never a property violation)
@@ -675,9 +776,24 @@ mod c25 {
         unlock_logged: bool,
         holder: bool,
         rel: HashMap<&'static str, usize>,
+        home_events: Vec<HomeEv>,
+        urls: Vec<String>,
     }
 
     impl Drv {
+        fn url_name(&mut self, url: &str) -> String {
+            if url.is_empty() || url == "none" {
+                return "none".into();
+            }
+            let i = match self.urls.iter().position(|u| u == url) {
+                Some(i) => i,
+                None => {
+                    self.urls.push(url.to_string());
+                    self.urls.len() - 1
+                }
+            };
+            ((b'a' + i as u8) as char).to_string()
+        }
         fn count(&self, ev: &str) -> usize {
             self.log.iter().filter(|e| e.ev == ev).count()
         }
@@ -725,6 +841,20 @@ mod c25 {
                     }
                     "c25.run_finish" => {
                         self.push("run_finish");
+                    }
+                    l if l.starts_with("c26.") => {
+                        let ev = match l {
+                            "c26.set" => "set",
+                            "c26.clear" => "clear",
+                            "c26.read" => "read",
+                            "c26.write" => "write",
+                            _ => "done",
+                        };
+                        let home = self.url_name(f.get("home").map(|s| s.as_str()).unwrap_or(""));
+                        let actor = self.url_name(f.get("actor").map(|s| s.as_str()).unwrap_or(""));
+                        let url = if ev == "set" { home.clone() } else { actor };
+                        let state = f.get("state").cloned().unwrap_or_default();
+                        self.home_events.push(HomeEv { ev: ev.into(), url, home, state });
                     }
                     _ => {}
                 }
@@ -980,7 +1110,18 @@ mod c25 {
                     return;
                 }
             };
-            let mut d = Drv { ep, url, cfg, log: Vec::new(), runs: 0, unlock_logged: false, holder: false, rel: HashMap::new() };
+            let mut d = Drv {
+                ep,
+                url,
+                cfg,
+                log: Vec::new(),
+                runs: 0,
+                unlock_logged: false,
+                holder: false,
+                rel: HashMap::new(),
+                home_events: Vec::new(),
+                urls: Vec::new(),
+            };
             for (case, c) in cases.iter().enumerate() {
                 let mut o = Out { case, ..Default::default() };
                 match d.cleanup().await {
@@ -996,6 +1137,7 @@ mod c25 {
                         }
                     },
                 }
+                o.home_events = std::mem::take(&mut d.home_events);
                 out.emit(&o);
             }
             verif::reset();
